@@ -9,8 +9,11 @@ import (
 	"fmt"
 	"io"
 	"math/rand"
+	"os"
 	"runtime"
 	"strings"
+	"sync"
+	"syscall"
 	"time"
 
 	"golang.org/x/crypto/sha3"
@@ -35,9 +38,9 @@ func init() {
 		Level: "exploration",
 		Cases: func(t string) int {
 			if t == ev.Thorough {
-				return 480
+				return 64
 			}
-			return 16
+			return 8
 		},
 		Batches: func(t string) int {
 			if t == ev.Thorough {
@@ -48,7 +51,7 @@ func init() {
 		Rule: "each case = one real chain of 6 blocks produced by a goloop node (0-50 test transactions per block with payloads across RLP length boundaries, commit votes, half of the chains with an open BTP network so that blocks carry a BTP digest and NS filter) " +
 			"decoded by a second node through BlockManager.NewBlockDataFromReader and BlockDataFactory.NewBlockDataFromReader (seekable and plain readers). " +
 			"(1) round trip of every block: id, every header field, transaction bytes/ids in order, votes, digest, re-marshalled bytes, reload from the producer's DB. " +
-			"(2) mutants of the valid encodings: bit flips (every bit of small blocks, sampled for large), byte sets, truncation at every length, inserted/deleted bytes, inflated/deflated RLP length fields, body parts of another block under this header (whole body, transactions, votes, digest), transactions swapped/dropped/duplicated/moved between patch and normal list. " +
+			"(2) mutants of the valid encodings: bit flips (all header bits, a sample of the rest in the quick tier, every bit of blocks up to 1.5 kB in the thorough tier), byte sets, truncations, inserted/deleted bytes, every RLP length field inflated/deflated (also inside the nested encodings of votes, digest and result), body parts of another block under this header (whole body, transactions, votes, digest), transactions swapped/dropped/duplicated/moved between patch and normal list. " +
 			"(3) hostile inputs: structured blocks with self-consistent hashes and hostile parts (BTP digests with boundary network ids, crafted vote lists, foreign/garbled transactions, proposer/bloom/result/filter of odd shapes, wrong item counts, non-canonical integers), RLP-shaped random trees and random bytes. " +
 			"Oracle: no panic in decoding or in using the decoded block (ID, Marshal, accessors); an accepted input's decoded transactions/votes/digest hash (recomputed here: sha3, a fresh transaction list on a fresh DB, own RLP splitter) to the fields of the input's header and its filter matches the digest; " +
 			"an accepted input whose header bytes are those of a valid block X has exactly X's content. Non-trivial = distinct input that is not a valid encoding and that the harness's own splitter frames as header list + body list (it exercises the stages behind framing), or a body-swap mutant.",
@@ -56,7 +59,7 @@ func init() {
 			if t == ev.Thorough {
 				return 1000000
 			}
-			return 40000
+			return 30000
 		},
 		Required: []string{
 			"roundtrip_blocks", "roundtrip_blocks_with_txs", "roundtrip_blocks_with_digest", "roundtrip_blocks_with_votes",
@@ -96,17 +99,17 @@ type vblock struct {
 }
 
 type env struct {
-	c   *ev.Ctx
-	r   *rand.Rand
-	t   *bfix.QuietT
-	ci  int
-	A   *test.Node // producer
-	D   *test.Node // decoder
-	bdf module.BlockDataFactory
-	vbs []*vblock
-	n   int
-	// abort: a decode goroutine is stuck in an unbounded loop; end the batch quickly
-	abort bool
+	c        *ev.Ctx
+	r        *rand.Rand
+	t        *bfix.QuietT
+	ci       int
+	A        *test.Node // producer
+	D        *test.Node // decoder
+	bdf      module.BlockDataFactory
+	vbs      []*vblock
+	n        int
+	curDesc  string
+	decodeNS int64
 }
 
 type plainReader struct{ r io.Reader }
@@ -120,7 +123,9 @@ func goloopFrame() string {
 	fr := runtime.CallersFrames(pcs[:n])
 	for {
 		f, more := fr.Next()
-		if strings.Contains(f.Function, "github.com/icon-project/goloop/") {
+		// codec and log helpers only relay the failure (MustMarshalToBytes, Panicf): name their caller
+		if strings.Contains(f.Function, "github.com/icon-project/goloop/") &&
+			!strings.Contains(f.Function, "goloop/common/codec.") && !strings.Contains(f.Function, "goloop/common/log.") {
 			fn := f.Function[strings.Index(f.Function, "goloop/")+len("goloop/"):]
 			return fn
 		}
@@ -136,64 +141,109 @@ type decoded struct {
 	panic string // non-empty: panic value
 	where string // goloop frame
 	via   string
-	hung  bool
 }
 
-// guard runs f in its own goroutine. A panic is recovered (value + innermost
-// goloop frame). If f has not returned after hangAfter AND the heap has grown
-// by more than hangHeap since f started, f is declared hung (an unbounded
-// loop that allocates; a decode of a few kB normally takes well under a
-// millisecond and may allocate at most a few MB) and the goroutine's innermost
-// goloop frame is returned. A slow machine alone never satisfies the heap
-// condition; in that case guard keeps waiting (outer watchdog = inconclusive).
+// guard runs f inline. A panic is recovered (value + innermost goloop frame
+// that is not a codec/log relay).
+func guard(f func()) (pan, where string) {
+	defer func() {
+		if p := recover(); p != nil {
+			pan = fmt.Sprint(p)
+			where = goloopFrame()
+		}
+	}()
+	f()
+	return
+}
+
+// The hang monitor. Every guarded call publishes (sequence number, start
+// time, description) in `cur`; one monitor goroutine per child looks at it
+// once a second. If the same call is still running after hangAfter AND the
+// heap has grown by more than hangHeap since the monitor first saw that call
+// (a block decode of a few kB normally returns well within a millisecond and
+// may allocate a few MB at most), the call is declared an unbounded
+// allocating loop: the monitor samples the stuck goroutine's stack to name the
+// looping function, records the violation with the journalled input, writes
+// the batch result and ends the child (the stuck goroutine cannot be stopped).
+// A slow machine alone never satisfies the heap condition; then the monitor
+// keeps waiting and the outer watchdog reports the batch as inconclusive.
 const (
 	hangAfter = 15 * time.Second
 	hangHeap  = 24 << 20
 )
 
-func guard(f func()) (pan, where string, hung bool) {
-	type res struct{ pan, where string }
-	ch := make(chan res, 1)
-	var ms runtime.MemStats
-	start := time.Now()
-	var heap0 uint64
-	started := make(chan struct{})
-	go func() {
-		defer func() {
-			if p := recover(); p != nil {
-				ch <- res{fmt.Sprint(p), goloopFrame()}
-				return
+type running struct {
+	seq   uint64
+	start time.Time
+	what  string // "decoder" | "decoded-block"
+	ci    int
+	in    []byte
+	via   string
+	desc  string
+}
+
+var (
+	curMu   sync.Mutex
+	cur     *running
+	curSeq  uint64
+	cleanup []string // directories to remove when the monitor ends the child
+)
+
+func begin(what string, ci int, in []byte, via, desc string) {
+	curMu.Lock()
+	curSeq++
+	cur = &running{seq: curSeq, start: time.Now(), what: what, ci: ci, in: in, via: via, desc: desc}
+	curMu.Unlock()
+}
+
+func end() {
+	curMu.Lock()
+	cur = nil
+	curMu.Unlock()
+}
+
+var monitorOnce sync.Once
+
+func startMonitor(c *ev.Ctx) {
+	monitorOnce.Do(func() {
+		go func() {
+			var ms runtime.MemStats
+			var seenSeq uint64
+			var heap0 uint64
+			for {
+				time.Sleep(time.Second)
+				curMu.Lock()
+				r := cur
+				curMu.Unlock()
+				if r == nil || time.Since(r.start) < 3*time.Second {
+					continue
+				}
+				runtime.ReadMemStats(&ms)
+				if r.seq != seenSeq {
+					seenSeq, heap0 = r.seq, ms.HeapAlloc
+					continue
+				}
+				if time.Since(r.start) < hangAfter || ms.HeapAlloc < heap0 || ms.HeapAlloc-heap0 < hangHeap {
+					continue
+				}
+				where := hungFrame()
+				w := map[string]interface{}{"observed": fmt.Sprintf("call did not return after %s and the heap grew by %d MB meanwhile (a block decode normally returns within a millisecond)", time.Since(r.start).Round(time.Second), (ms.HeapAlloc-heap0)>>20)}
+				w["case"], w["input"], w["entry_point"], w["mutation"] = r.ci, hexs(r.in), r.via, r.desc
+				c.Violation(r.what+".unbounded-loop@"+where, w)
+				curMu.Lock()
+				dirs := append([]string(nil), cleanup...)
+				curMu.Unlock()
+				for _, d := range dirs {
+					os.RemoveAll(d)
+				}
+				if err := c.Finish(); err != nil {
+					fmt.Fprintln(os.Stderr, err)
+					os.Exit(3)
+				}
+				os.Exit(0)
 			}
-			ch <- res{}
 		}()
-		close(started)
-		f()
-	}()
-	<-started
-	// fast path
-	select {
-	case r := <-ch:
-		return r.pan, r.where, false
-	case <-time.After(50 * time.Millisecond):
-	}
-	runtime.ReadMemStats(&ms)
-	heap0 = ms.HeapAlloc
-	tick := time.NewTicker(100 * time.Millisecond)
-	defer tick.Stop()
-	for {
-		select {
-		case r := <-ch:
-			return r.pan, r.where, false
-		case <-tick.C:
-			if time.Since(start) < hangAfter {
-				continue
-			}
-			runtime.ReadMemStats(&ms)
-			if ms.HeapAlloc > heap0 && ms.HeapAlloc-heap0 > hangHeap {
-				return "", hungFrame(), true
-			}
-		}
-	}
+	})
 }
 
 // goroutineStack returns the goloop functions on the stack of the goroutine
@@ -202,7 +252,7 @@ func goroutineStack() []string {
 	buf := make([]byte, 4<<20)
 	n := runtime.Stack(buf, true)
 	for _, g := range strings.Split(string(buf[:n]), "\n\n") {
-		if !strings.Contains(g, "c08.guard.func1") {
+		if !strings.Contains(g, "props/c08.guard(") {
 			continue
 		}
 		var fns []string
@@ -244,7 +294,7 @@ func hungFrame() string {
 	return common[len(common)-1]
 }
 
-func (e *env) dead() bool { return e.abort || e.c.Stopped() }
+func (e *env) dead() bool { return e.c.Stopped() }
 
 func (e *env) decode(in []byte) (d decoded) {
 	e.n++
@@ -266,11 +316,11 @@ func (e *env) decode(in []byte) (d decoded) {
 		e.c.Count("via_factory_bufio", 1)
 		f = func() { bd, err = e.bdf.NewBlockDataFromReader(bufio.NewReader(bytes.NewReader(in))) }
 	}
-	d.panic, d.where, d.hung = guard(f)
-	if d.hung {
-		e.abort = true
-		return
-	}
+	begin("decoder", e.ci, in, d.via, e.curDesc)
+	t0 := time.Now()
+	d.panic, d.where = guard(f)
+	e.decodeNS += time.Since(t0).Nanoseconds()
+	end()
 	d.bd, d.err = bd, err
 	return
 }
@@ -348,11 +398,10 @@ func ownFilter(digest []byte) (f []byte, ok bool) {
 func hexs(b []byte) string { return hex.EncodeToString(b) }
 
 // use exercises the decoded block the way a node does after decoding.
-func (e *env) use(bd module.BlockData) (pan, where string, hung bool) {
-	pan, where, hung = guard(func() { useBlock(bd) })
-	if hung {
-		e.abort = true
-	}
+func (e *env) use(bd module.BlockData, in []byte) (pan, where string) {
+	begin("decoded-block", e.ci, in, "", e.curDesc)
+	pan, where = guard(func() { useBlock(bd) })
+	end()
 	return
 }
 
@@ -408,6 +457,7 @@ func (e *env) feed(kind, desc string, in []byte, base *vblock) {
 	c := e.c
 	c.Eval(1)
 	c.Note("%s %s len=%d", kind, desc, len(in))
+	e.curDesc = kind + " " + desc
 	c.Count(kind, 1)
 	d := e.decode(in)
 	wit := func(extra map[string]interface{}) map[string]interface{} {
@@ -420,10 +470,6 @@ func (e *env) feed(kind, desc string, in []byte, base *vblock) {
 			w[k] = v
 		}
 		return w
-	}
-	if d.hung {
-		c.Violation("decoder.unbounded-loop@"+d.where, wit(map[string]interface{}{"observed": "decode did not return and the heap kept growing (more than 24 MB after 15 s; a block decode normally returns within a millisecond)"}))
-		return
 	}
 	if d.panic != "" {
 		c.Violation("decoder.panic@"+d.where, wit(map[string]interface{}{"panic": d.panic}))
@@ -449,10 +495,7 @@ func (e *env) feed(kind, desc string, in []byte, base *vblock) {
 	}
 	bd := d.bd
 	c.Count("accepted_checked", 1)
-	if pan, where, hung := e.use(bd); hung {
-		c.Violation("decoded-block.unbounded-loop@"+where, wit(nil))
-		return
-	} else if pan != "" {
+	if pan, where := e.use(bd, in); pan != "" {
 		c.Violation("decoded-block.panic@"+where, wit(map[string]interface{}{"panic": pan}))
 		return
 	}
@@ -678,10 +721,6 @@ func (e *env) roundTrip(vb *vblock) {
 	}
 	for i := 0; i < 3; i++ {
 		d := e.decode(vb.enc)
-		if d.hung {
-			c.Violation("decoder.unbounded-loop@"+d.where, wit(map[string]interface{}{"entry_point": d.via}))
-			return
-		}
 		if d.panic != "" {
 			c.Violation("decoder.panic@"+d.where, wit(map[string]interface{}{"panic": d.panic, "entry_point": d.via}))
 			return
@@ -779,6 +818,13 @@ func (e *env) roundTrip(vb *vblock) {
 
 func run(c *ev.Ctx) {
 	bfix.Silence()
+	startMonitor(c)
+	defer func() {
+		var ru syscall.Rusage
+		if syscall.Getrusage(syscall.RUSAGE_SELF, &ru) == nil {
+			c.Count("cpu_ms", int(ru.Utime.Sec*1000+ru.Utime.Usec/1000+ru.Stime.Sec*1000+ru.Stime.Usec/1000))
+		}
+	}()
 	c.Cases(func(ci int, r *rand.Rand) {
 		e := &env{c: c, r: r, t: &bfix.QuietT{}, ci: ci}
 		c.Note("chain btp=%v", ci%2 == 0)
@@ -789,6 +835,14 @@ func run(c *ev.Ctx) {
 		if e.D != nil {
 			defer e.D.Close()
 		}
+		curMu.Lock()
+		cleanup = cleanup[:0]
+		for _, nd := range []*test.Node{e.A, e.D} {
+			if nd != nil {
+				cleanup = append(cleanup, nd.Base)
+			}
+		}
+		curMu.Unlock()
 		if !ok {
 			return
 		}
@@ -808,5 +862,6 @@ func run(c *ev.Ctx) {
 		if errs := e.t.Errors(); len(errs) > 0 {
 			c.Violation("fixture.assert", map[string]interface{}{"errors": errs, "case": ci})
 		}
+		c.Count("decode_wall_ms", int(e.decodeNS/1e6))
 	})
 }
